@@ -21,7 +21,7 @@ func keyspaceScenario(r *Rng, report func(Violation)) {
 	base := a.GetContext()
 	pairs := [][2]string{
 		{"abcd", "abcdasync_packet"},            // the async suffix word lies inside the identifier alphabet
-		{"channel-1", "channel-10"},              // kind byte separates
+		{"channel-1", "channel-10"},             // kind byte separates
 		{"07-tendermint-1", "07-tendermint-12"}, // kind byte separates
 		{"abcd", "abcdalias"},
 	}
